@@ -53,6 +53,13 @@ func (ex *Exec) constVal(c *ssa.Const) Value {
 			return ex.c.Bool(constant.BoolVal(c.Value))
 		case u.Info()&types.IsString != 0:
 			return ex.constString(constant.StringVal(c.Value))
+		case u.Kind() == types.UnsafePointer:
+			// unsafe.Pointer(uintptr(k)) folded to a constant: nil for 0, otherwise a wild address
+			v, _ := constant.Uint64Val(constant.ToInt(c.Value))
+			if v == 0 {
+				return ex.zeroOf(t)
+			}
+			return Ptr{off: ex.c.Const(64, v)}
 		case u.Info()&types.IsInteger != 0:
 			w := width(t)
 			if u.Info()&types.IsUnsigned != 0 {
